@@ -1142,8 +1142,12 @@ mod srvlevel {
     /// `served` counts the connections that presented `nonce` (this scenario's own clients): ports are reused
     /// quickly when many checks run at once, so a stranger may connect to this server, and a probe of this
     /// scenario may reach a stranger's server — neither may be mistaken for "served by this server"
+    /// when the echo service was last called (process-wide)
+    static LAST_CALL: std::sync::Mutex<Option<Instant>> = std::sync::Mutex::new(None);
+
     async fn serve_echo<S: tokio::io::AsyncRead + tokio::io::AsyncWrite + Unpin>(mut stream: S, served: Arc<AtomicUsize>, nonce: [u8; 8]) -> Result<(), ()> {
         use tokio::io::{AsyncReadExt, AsyncWriteExt};
+        *LAST_CALL.lock().unwrap() = Some(Instant::now());
         let mut buf = [0u8; 64];
         let mut head: Vec<u8> = vec![];
         loop {
@@ -1339,6 +1343,7 @@ mod srvlevel {
         late: bool,
         served_after: bool,
         left_open: Vec<usize>, // forced stop: connections in progress that the server never closed
+        probe: Option<&'static str>, // flood: a connect right after the stop completed: refused | connected
     }
 
     fn is_port_error(e: &std::io::Error) -> bool {
@@ -1354,6 +1359,8 @@ mod srvlevel {
         gap2: u64,
         late: Option<bool>, // `late=g|f`: one more stop() after everything has completed (its future must resolve, too)
         lst: Lst,
+        flood: usize, // `flood=N` (with paused=1, a unix listener): N clients queue up in the listen backlog while the server is
+        // paused; resume() and stop() are called back to back: the accept thread is busy when it is told to stop
         sysexit: bool, // `sysexit=1`: the builder's system_exit() (stop the actix System after the shutdown — there is none here)
         dropfut: bool,
         paused: bool,
@@ -1412,12 +1419,19 @@ mod srvlevel {
             Some("1") => true,
             _ => return None,
         };
-        Some(Scn { workers, timeout, graceful, holds, second, gap2, late, lst, sysexit, dropfut: kv(ws, "drop") == Some("1"), paused: kv(ws, "paused") == Some("1") })
+        let flood = match kv(ws, "flood") {
+            None => 0,
+            Some(f) => super::num(f)?,
+        };
+        if flood > 2000 || (flood > 0 && (kv(ws, "paused") != Some("1") || lst == Lst::Tcp || kv(ws, "drop") == Some("1"))) {
+            return None;
+        }
+        Some(Scn { workers, timeout, graceful, holds, second, gap2, late, lst, flood, sysexit, dropfut: kv(ws, "drop") == Some("1"), paused: kv(ws, "paused") == Some("1") })
     }
 
     async fn scenario(sc: &Scn) -> Outcome {
         use tokio::io::AsyncReadExt;
-        let mut out = Outcome { setup: None, stop: "never", server: "never", second: "-", late_stop: None, early: vec![], late: false, served_after: false, left_open: vec![] };
+        let mut out = Outcome { setup: None, stop: "never", server: "never", second: "-", late_stop: None, early: vec![], late: false, served_after: false, left_open: vec![], probe: None };
         let served = Arc::new(AtomicUsize::new(0));
         let nonce: [u8; 8] = {
             static SEQ: AtomicUsize = AtomicUsize::new(0);
@@ -1482,16 +1496,33 @@ mod srvlevel {
         if sc.paused {
             handle.pause().await;
         }
+        let mut backlog = vec![];
+        for _ in 0..sc.flood {
+            match tokio::time::timeout(Duration::from_millis(500), connect_to(&addr)).await {
+                Ok(Ok(c)) => backlog.push(c),
+                _ => break, // the backlog is full: enough
+            }
+        }
         let served_before = served.load(Ordering::SeqCst);
         let t0 = Instant::now();
+        if sc.flood > 0 {
+            drop(handle.resume()); // the command is sent by the call
+        }
         let stop_fut = handle.stop(sc.graceful);
+        let probe_at = if sc.flood > 0 { Some(addr.clone()) } else { None };
         let stop_task = if sc.dropfut {
             drop(stop_fut);
             None
         } else {
             Some(tokio::spawn(async move {
                 stop_fut.await;
-                t0.elapsed().as_millis()
+                let done = Instant::now();
+                // the stop has completed: the accept thread has exited and its listeners are closed — a connect is refused
+                let probe = match &probe_at {
+                    Some(a) => Some(connect_to(a).await.is_ok()),
+                    None => None,
+                };
+                (t0.elapsed().as_millis(), done, probe)
             }))
         };
         // further stop() calls, each `gap2` ms after the previous call; per call: (graceful, issued at, resolved at)
@@ -1572,10 +1603,25 @@ mod srvlevel {
         let t_stop = match stop_task {
             None => None,
             Some(t) => match tokio::time::timeout(Duration::from_millis(3000), t).await {
-                Ok(Ok(ms)) => Some(ms),
+                Ok(Ok((ms, done, probe))) => {
+                    if probe == Some(true) {
+                        out.early.push(format!("[C06] {ms} ms after the call, stop({}) had completed — and a connection to the server's listener was still possible right then: the accept thread had not exited, its listener was open ({} clients had been waiting in the backlog when resume() and stop() were called): connections can be accepted and dispatched after the completion", sc.graceful, backlog.len()));
+                    }
+                    out.probe = probe.map(|p| if p { "connected" } else { "refused" });
+                    // graceful: every worker has answered before the completion — no service call starts after it
+                    if sc.graceful {
+                        if let Some(last) = *LAST_CALL.lock().unwrap() {
+                            if last > done {
+                                out.early.push(format!("[C06] a service call started {} µs after stop(true) had completed: a connection was dispatched and served after the completion", (last - done).as_micros()));
+                            }
+                        }
+                    }
+                    Some(ms)
+                }
                 _ => None,
             },
         };
+        drop(backlog);
         let t_seconds: Vec<(bool, u128, Option<u128>)> = match second_task {
             None => vec![],
             Some(t) => match tokio::time::timeout(Duration::from_millis(3000 + 4 * sc.gap2), t).await {
@@ -1737,7 +1783,7 @@ mod srvlevel {
             (!o.early.is_empty()) as u8,
             o.late as u8,
             if o.served_after { "served" } else if !o.left_open.is_empty() { "open" } else { "none" },
-            o.late_stop.map_or(String::new(), |l| format!(" late-stop={l}"))
+            o.late_stop.map_or(String::new(), |l| format!(" late-stop={l}")) + &o.probe.map_or(String::new(), |p| format!(" probe={p}"))
         )
     }
 
@@ -1808,6 +1854,15 @@ mod srvlevel {
 
     /// child process: a server with OS signals enabled; prints its port, exits when the server future resolves
     pub fn sigchild(timeout: Option<u64>, plain_tokio: bool, abstract_uds: bool) {
+        // SIGUSR1: a handler that does nothing (no SA_RESTART): whichever thread takes it has its system call interrupted
+        extern "C" fn noop(_: libc::c_int) {}
+        unsafe {
+            let mut sa: libc::sigaction = std::mem::zeroed();
+            sa.sa_sigaction = noop as *const () as usize;
+            libc::sigemptyset(&mut sa.sa_mask);
+            sa.sa_flags = 0;
+            libc::sigaction(libc::SIGUSR1, &sa, std::ptr::null_mut());
+        }
         let served = Arc::new(AtomicUsize::new(0));
         let fut = async move {
             let (srv, target) = server_on(if abstract_uds { Lst::UdsAbstract } else { Lst::Tcp }, 1, timeout, true, false, served, [0u8; 8]).expect("server");
@@ -1856,6 +1911,18 @@ mod srvlevel {
             Some("udsa") => true,
             _ => return (line.to_string(), "bad-op".into(), vec![]),
         };
+        // `to=acceptor`: the signal is delivered to the accept thread of the server process (tgkill), not to the process;
+        // `usr1=1`: before that, SIGUSR1 (no-op handler in the server process) is delivered to the accept thread: the server serves on
+        let to_acceptor = match kv(&ws, "to") {
+            None | Some("process") => false,
+            Some("acceptor") => true,
+            _ => return (line.to_string(), "bad-op".into(), vec![]),
+        };
+        let usr1 = match kv(&ws, "usr1") {
+            None => false,
+            Some("1") => true,
+            _ => return (line.to_string(), "bad-op".into(), vec![]),
+        };
         let exe = match std::env::current_exe() {
             Ok(e) => e,
             Err(e) => return (line.to_string(), format!("setup-error {e}"), vec![]),
@@ -1869,6 +1936,7 @@ mod srvlevel {
             Ok(c) => c,
             Err(e) => return (line.to_string(), format!("setup-error spawn {e}"), vec![]),
         };
+        let child_pid = child.id();
         let mut port = String::new();
         {
             let out = child.stdout.as_mut().unwrap();
@@ -1882,7 +1950,10 @@ mod srvlevel {
         }
         trait StdRw: Read + Write + Send {}
         impl<T: Read + Write + Send> StdRw for T {}
-        let conn: Option<Box<dyn StdRw>> = if abstract_uds {
+        let port2 = port.clone();
+        let mk_conn = move || -> Option<Box<dyn StdRw>> {
+            let port = port2.clone();
+            if abstract_uds {
             use std::os::linux::net::SocketAddrExt;
             std::os::unix::net::SocketAddr::from_abstract_name(port.trim().as_bytes())
                 .and_then(|a| std::os::unix::net::UnixStream::connect_addr(&a))
@@ -1897,8 +1968,9 @@ mod srvlevel {
                 let _ = c.set_read_timeout(Some(Duration::from_millis(1000)));
                 Box::new(c) as Box<dyn StdRw>
             })
+            }
         };
-        let mut c = match conn {
+        let mut c = match mk_conn() {
             Some(c) => c,
             None => {
                 let _ = child.kill();
@@ -1912,8 +1984,55 @@ mod srvlevel {
             return (line.to_string(), "setup-error echo".into(), vec![]);
         }
         std::thread::sleep(Duration::from_millis(100)); // let the signal handlers be installed
+        // the thread of the accept loop in the server process
+        let acceptor_tid = || -> Option<i32> {
+            for e in std::fs::read_dir(format!("/proc/{}/task", child_pid)).ok()?.flatten() {
+                if let Ok(comm) = std::fs::read_to_string(e.path().join("comm")) {
+                    if comm.trim().starts_with("actix-server ac") {
+                        return e.file_name().to_str()?.parse().ok();
+                    }
+                }
+            }
+            None
+        };
+        let mut pre_fails: Vec<String> = vec![];
+        let mut serves: Option<bool> = None;
+        if usr1 {
+            // a harmless signal (the server process has a no-op handler for it) handled on the accept thread: its poll is
+            // interrupted; the server goes on serving — the connection in progress and a new one
+            if let Some(tid) = acceptor_tid() {
+                for _ in 0..3 {
+                    unsafe { libc::syscall(libc::SYS_tgkill, child_pid as libc::c_long, tid as libc::c_long, libc::SIGUSR1 as libc::c_long) };
+                    std::thread::sleep(Duration::from_millis(30));
+                }
+                std::thread::sleep(Duration::from_millis(100));
+                let mut ok = false;
+                if let Some(mut c2) = mk_conn() {
+                    let _ = c2.write_all(&[7]);
+                    let mut b2 = [0u8; 1];
+                    ok = c2.read_exact(&mut b2).is_ok() && b2[0] == 7;
+                }
+                serves = Some(ok);
+                if !ok {
+                    pre_fails.push("a harmless signal (SIGUSR1, no-op handler) was handled on the accept thread of the running server (its poll returned EINTR): afterwards a new connection was not accepted and served — an interrupted poll is not an error, the server keeps serving".into());
+                }
+            }
+        }
         let t0 = Instant::now();
-        let _ = std::process::Command::new("kill").args([&format!("-{signame}"), &child.id().to_string()]).status();
+        let direct = if to_acceptor { acceptor_tid() } else { None };
+        match direct {
+            Some(tid) => {
+                let signo = match signame {
+                    "INT" => libc::SIGINT,
+                    "TERM" => libc::SIGTERM,
+                    _ => libc::SIGQUIT,
+                };
+                unsafe { libc::syscall(libc::SYS_tgkill, child_pid as libc::c_long, tid as libc::c_long, signo as libc::c_long) };
+            }
+            None => {
+                let _ = std::process::Command::new("kill").args([&format!("-{signame}"), &child.id().to_string()]).status();
+            }
+        }
         let t_ms = timeout.unwrap_or(30) as u128 * 1000;
         let cap = Duration::from_millis(match (timeout, hold) {
             (None, Some(h)) => h + 7000, // default configuration: only with a connection that ends (no 37 s waits)
@@ -1938,7 +2057,7 @@ mod srvlevel {
             std::thread::sleep(Duration::from_millis(10));
         }
         drop(c);
-        let mut fails = vec![];
+        let mut fails = pre_fails;
         let mut early = false;
         match exit_ms {
             None => {
@@ -1972,7 +2091,12 @@ mod srvlevel {
         }
         (
             line.to_string(),
-            format!("exit={} early={}", if exit_ms.is_none() { "never".to_string() } else if clean { "ok".to_string() } else { exit_code.map_or("signal".to_string(), |c| format!("code{c}")) }, early as u8),
+            format!(
+                "exit={} early={}{}",
+                if exit_ms.is_none() { "never".to_string() } else if clean { "ok".to_string() } else { exit_code.map_or("signal".to_string(), |c| format!("code{c}")) },
+                early as u8,
+                if usr1 { format!(" serves={}", serves.map_or("?".to_string(), |s| (s as u8).to_string())) } else { String::new() }
+            ),
             fails,
         )
     }
@@ -3775,6 +3899,14 @@ mod gen {
             srv(&mut *w, "workers=1 timeout=1 mode=g holds=300 lst=udsa");
             srv(&mut *w, "workers=2 timeout=5 mode=f holds=n lst=udsa");
             writeln!(w, "sig a0 sig=term timeout=1 hold=300 lst=udsa").unwrap();
+            // the accept thread is busy (1500 clients in the backlog, resume() + stop() back to back) when it is told to stop:
+            // when the stop has completed it has exited all the same — a connect right then is refused
+            srv(&mut *w, "workers=1 timeout=2 mode=f holds=- paused=1 flood=1500 lst=uds");
+            srv(&mut *w, "workers=2 timeout=2 mode=g holds=- paused=1 flood=1500 lst=udsa");
+            // signals handled ON the accept thread (its poll is interrupted): a harmless one leaves the server serving, the
+            // terminating one stops it cleanly
+            writeln!(w, "sig e0 sig=term timeout=1 hold=300 to=acceptor usr1=1").unwrap();
+            writeln!(w, "sig e1 sig=int timeout=5 hold=n to=acceptor rt=tokio").unwrap();
             // one more stop() after the shutdown is over (the Server future has resolved): resolves at once
             srv(&mut *w, "workers=1 timeout=1 mode=g holds=300 late=f");
             srv(&mut *w, "workers=2 timeout=5 mode=f holds=n late=g second=g");
